@@ -308,6 +308,50 @@ pub fn run(s: &Scn, ctx: &mut RunCtx, prefix: &'static str) -> RunOutput {
                 );
             }
         }
+        // A lone caller for which capacity certainly frees up within its timeout must not be
+        // rejected (fixed window: a new window starts at the latest one period after the first
+        // of the last `limit` admissions; sliding log: that admission expires then).
+        if s.window != 2 && jump == 0 {
+            let prior: Vec<u64> = calls.iter().filter(|c| c.start_seq < t.first_poll_seq).map(|c| c.start_us).collect();
+            if prior.len() >= l {
+                let e = prior[prior.len() - l] + p;
+                let competition = rep.tasks.iter().enumerate().any(|(j, u)| {
+                    if j == i || u.first_poll_seq == 0 {
+                        return false;
+                    }
+                    let decided_seq = calls
+                        .iter()
+                        .find(|c| c.req == j as u32)
+                        .map(|c| c.start_seq)
+                        .or(if u.end_seq > 0 { Some(u.end_seq) } else { None })
+                        .unwrap_or(u64::MAX);
+                    let undecided_at_my_arrival = u.first_poll_seq < t.first_poll_seq && decided_seq > t.first_poll_seq;
+                    let arrives_later = u.first_poll_seq > t.first_poll_seq && u.first_poll_us <= e + 1000;
+                    undecided_at_my_arrival || arrives_later
+                });
+                let cancelled = t.status == Status::Cancelled;
+                if e > a && e - a <= tout && !competition && !cancelled {
+                    world::probe("lone_waiter_with_reachable_permit");
+                    let admitted_in_time = mine.first().map(|m| m.start_us <= e + 1000).unwrap_or(false);
+                    if !admitted_in_time {
+                        world::violation(
+                            "C15.rejected_only_if_needed",
+                            ["fixed", "sliding_log", "sliding_counter"][s.window as usize],
+                            format!(
+                                "caller {} arrived alone at {}us; capacity frees at the latest at {}us, within its timeout {}us, but it was {:?} (admitted {:?}); {}",
+                                i,
+                                a,
+                                e,
+                                tout,
+                                t.out.as_ref().and_then(|o| o.err),
+                                mine.first().map(|m| m.start_us),
+                                detail()
+                            ),
+                        );
+                    }
+                }
+            }
+        }
         match t.status {
             Status::Resolved => {
                 let o = t.out.as_ref().unwrap();
